@@ -71,7 +71,7 @@ def pool_names(scn):
         for r in flatten(scn).values():
             if r['k'] == 'set_max':
                 mx = max(mx, r['n'])
-        n = mx + scn.get('extra_pool', 0)
+        n = mx + scn.get('extra_pool', 0) + sum(1 for r in flatten(scn).values() if r['panic'])
     return ['p%d' % (i + 1) for i in range(n)]
 
 
